@@ -227,7 +227,12 @@ func sortedProps() []string {
 
 func writeEvidence(path string, c *Ctx, p *Property, tier string, seed int, wall float64, bad int) {
 	_ = os.MkdirAll(filepath.Dir(path), 0o755)
-	disc, nontriv := 0, 0
+	disc, nontriv, knownN := 0, 0, 0
+	for _, o := range c.Obs {
+		if o.Verdict == Known {
+			knownN++
+		}
+	}
 	seenNT := map[string]bool{}
 	for _, o := range c.Obs {
 		if o.Verdict == Discharged {
@@ -270,6 +275,7 @@ func writeEvidence(path string, c *Ctx, p *Property, tier string, seed int, wall
 			"call_sites":         c.CallSites,
 			"abstract_states":    c.States,
 			"exhaustive":         true,
+			"known_findings":     knownN,
 			"packages_loaded":    len(c.W.Pkgs),
 			"module_functions":   len(c.W.ModFuncs),
 			"checker_cmd":        fmt.Sprintf("dcpverif -prop %s -tier %s -repo %s", c.Prop, tier, c.W.Repo),
